@@ -611,7 +611,23 @@ def rule_outcome_used(ctx: Ctx) -> None:
                     continue
                 name = norm(o)
                 reads = [x for x in ast.walk(fn) if isinstance(x, ast.Name) and x.id == name and isinstance(x.ctx, ast.Load)]
-                if reads:
+                if reads and fn.name == "remove_qubit":
+                    # the eigenvalue must reach the signs on EVERY path (random and deterministic outcome alike)
+                    def feeds_sign(node, nm=name):
+                        return isinstance(node, (ast.Assign, ast.AugAssign)) and any(
+                            isinstance(t, ast.Subscript) and isinstance(t.value, ast.Attribute) and t.value.attr in ("phase", "_phase")
+                            for t in (node.targets if isinstance(node, ast.Assign) else [node.target])) and any(
+                            isinstance(x, ast.Name) and x.id == nm for x in ast.walk(node.value))
+                    from .. import flow as _flow
+                    if _flow.must_pass(fn.body, feeds_sign):
+                        ctx.ok("measure.outcome-used", m, st, what=f"{fn.name}: the measured eigenvalue is folded into the signs on every path")
+                    else:
+                        ctx.fail("measure.outcome-used", m, st,
+                                 f"{fn.name} folds the measured eigenvalue `{name}` into the signs of the generators that act with Z on the removed qubit "
+                                 f"only on some paths (under a condition on the kind of outcome): when the outcome was random and another generator "
+                                 f"still carries Z on the removed qubit, that generator loses the eigenvalue (GHZ, remove one qubit with outcome 1: "
+                                 f"|00> instead of |11>)", func=fn.name, construct=f"{fn.name}: outcome reaches the signs only conditionally")
+                elif reads:
                     ctx.ok("measure.outcome-used", m, st, what=f"{fn.name} consumes the outcome")
                 else:
                     ctx.fail("measure.outcome-used", m, st,
